@@ -403,6 +403,25 @@ func c12RunAttempt(e *Env, family string, st c12Store, at c12Attempt, omitProg, 
 	if e.Choose("gen", 2) == 1 {
 		e.S.Go("updater", func() {
 			for i, m := range ms {
+				// what a program does on a line: update a datum that exists (whatever its type) ...
+				m.RLock()
+				var first datum.Datum
+				if len(m.LabelValues) > 0 {
+					first = m.LabelValues[0].Value
+				}
+				m.RUnlock()
+				switch d := first.(type) {
+				case *datum.Int:
+					d.IncBy(1, time.Time{})
+				case *datum.Float:
+					d.Set(1.5, time.Time{})
+				case *datum.String:
+					d.Set("updated", time.Time{})
+				case *datum.Buckets:
+					d.Observe(1.5, time.Time{})
+				}
+				simrt.HYield()
+				// ... and create one that does not
 				tuple := make([]string, len(m.Keys))
 				for k := range tuple {
 					tuple[k] = fmt.Sprintf("u%d", i)
